@@ -3,7 +3,7 @@
 # Applies each property-preserving change in the scratch copy (/tmp/seedrun) and runs the quick checks of every
 # property whose mechanism lives in a touched file.  Every check must stay silent (exit 0).
 set -u
-SCR=/tmp/seedrun
+SCR=${SCR:-/tmp/seedrun}
 HEAD=$(git -C /repo rev-parse HEAD)
 mkdir -p $SCR
 if [ ! -d $SCR/repo ]; then git -C /repo worktree add -q --detach $SCR/repo "$HEAD" || exit 2; fi
